@@ -603,7 +603,8 @@ impl InnerLocustDB {
                 };
 
                 let span_decode = tracer.start_span("decode");
-                let decoded = col.decode();
+                let mut string_store = Vec::new();
+                let decoded = col.decode(&mut string_store);
                 tracer.end_span(span_decode);
 
                 let span_push = tracer.start_span("push");
